@@ -1,5 +1,5 @@
 (* Props/C03.v -- property theorems for C03 only. *)
-From LV Require Import Base FS FSFacts LayerEnv LayerEnvFacts LayerShared LayerSharedGone LayerEnvFS LayerEnvFSFacts Determinism LayerEnvFSExact FSInv LayerEnvFSCompose LayerEnvReadback LayerEnvFSRead LayerEnvFSCycle LayerEnvFSProc LayerEnvFSFull.
+From LV Require Import Base FS FSFacts LayerEnv LayerEnvFacts LayerShared LayerSharedGone LayerEnvFS LayerEnvFSFacts Determinism LayerEnvFSExact FSInv LayerEnvFSCompose LayerEnvReadback LayerEnvFSRead LayerEnvFSCycle LayerEnvFSProc LayerEnvFSFull LayerEnvFSOrder.
 From Coq Require Import Lia.
 From LVGen Require Import GenLayerEnv.
 
@@ -209,6 +209,19 @@ Theorem c03_write_then_read_full :
                  (s', Ok (read_result_full layer_path_specs path_list_separator e dir s')).
 Proof. exact (write_then_read_full writer_suffix reader_suffix reader_no_ext layer_path_specs path_list_separator reads_process gen_tables_inverse eq_refl). Qed.
 Print Assumptions c03_write_then_read_full.
+
+(* std::fs::read_dir lists a directory in no particular order (FS.readdir lists sorted): with the
+   listing order as an explicit oracle -- ANY function giving some permutation of each directory's
+   entries -- the reader returns the same environment on a written layer.  The listing order is
+   thereby not part of the trusted base for writer-shaped layers. *)
+Theorem c03_read_any_listing_order :
+  forall e dir s ord,
+    simple_dir s dir -> parent_closed s -> env_ok_full writer_suffix e -> layer_written_full writer_suffix e dir s ->
+    listing_ok ord s ->
+    read_from_layer_dir_ord reader_suffix reader_no_ext layer_path_specs path_list_separator reads_process ord dir s =
+      (s, Ok (read_result_full layer_path_specs path_list_separator e dir s)).
+Proof. exact (read_any_order writer_suffix reader_suffix reader_no_ext layer_path_specs path_list_separator reads_process gen_tables_inverse eq_refl). Qed.
+Print Assumptions c03_read_any_listing_order.
 
 (* the hypotheses are satisfiable: a layer directory /l, an environment with entries in all three
    scopes (dotted and non-UTF-8 names), written and read back *)
